@@ -68,40 +68,28 @@ func loadControls() []control {
 	return out
 }
 
+// rulesFor returns the property's rule selectors that this control exercises.
 func (c control) rulesFor(p *props.Prop) []string {
-	in := func(r string) bool {
-		for _, x := range p.Rules {
-			if ob.RuleMatches(r, x) || ob.RuleMatches(x, r) {
-				return true
-			}
+	var want []string
+	if c.Kind == "negative" {
+		want = c.Rules
+	} else {
+		for _, e := range c.Expect {
+			want = append(want, e.Rule)
 		}
-		return false
 	}
 	var out []string
-	seen := map[string]bool{}
-	add := func(r string) {
-		base := r
-		if i := strings.IndexAny(base, "(:/"); i > 0 {
-			base = base[:i]
-		}
-		if in(base) && !seen[base] {
-			seen[base] = true
-			out = append(out, base)
-		}
-	}
-	if c.Kind == "negative" {
-		if len(c.Rules) == 0 {
-			for _, r := range p.Rules {
-				add(r)
+	for _, sel := range p.Rules {
+		n, _ := splitSel(sel)
+		hit := c.Kind == "negative" && len(want) == 0
+		for _, w := range want {
+			if ob.RuleMatches(w, n) || ob.RuleMatches(n, w) {
+				hit = true
 			}
 		}
-		for _, r := range c.Rules {
-			add(r)
+		if hit {
+			out = append(out, sel)
 		}
-		return out
-	}
-	for _, e := range c.Expect {
-		add(e.Rule)
 	}
 	return out
 }
@@ -201,40 +189,70 @@ func runControls(p *props.Prop, tier string) controlReport {
 	base := map[string]map[string]bool{}
 	quickSeen := map[string]bool{}
 	for _, c := range loadControls() {
-		rules := c.rulesFor(p)
-		if len(rules) == 0 {
+		sels := c.rulesFor(p)
+		if len(sels) == 0 {
 			continue
+		}
+		// run the rules unfiltered, then look at what the property's selectors keep
+		var names []string
+		seen := map[string]bool{}
+		for _, sel := range sels {
+			n, _ := splitSel(sel)
+			if !seen[n] {
+				seen[n] = true
+				names = append(names, n)
+			}
 		}
 		if tier != "thorough" {
 			if !c.Quick {
 				continue
 			}
-			k := c.Kind + ":" + strings.Join(rules, ",")
+			k := c.Kind + ":" + strings.Join(names, ",")
 			if quickSeen[k] {
 				continue
 			}
-			quickSeen[k] = true
 		}
-		fresh, skip := runOneControl(c, rules, base)
+		fresh, skip := runOneControl(c, names, base)
 		if skip != "" {
 			rep.Skipped++
 			rep.SkipNames = append(rep.SkipNames, c.Name+": "+skip)
 			continue
 		}
-		rep.Run++
-		rep.Names = append(rep.Names, c.Name)
+		var inProp []ob.Obligation
+		for _, o := range fresh {
+			if o.Rule == "ANALYSIS-ERROR" {
+				inProp = append(inProp, o)
+				continue
+			}
+			for _, sel := range sels {
+				n, f := splitSel(sel)
+				if ob.RuleMatches(o.Rule, n) && selMatch(f, o.Construct) {
+					inProp = append(inProp, o)
+					break
+				}
+			}
+		}
 		if c.Kind == "negative" {
-			if len(fresh) > 0 {
+			rep.Run++
+			rep.Names = append(rep.Names, c.Name)
+			if len(inProp) > 0 {
 				rep.FalseAlarm++
-				rep.FalseNames = append(rep.FalseNames, c.Name+": "+fresh[0].String())
+				rep.FalseNames = append(rep.FalseNames, c.Name+": "+inProp[0].String())
 			} else {
 				rep.Silent++
 			}
 			continue
 		}
-		if c.firedBy(fresh) {
+		switch {
+		case c.firedBy(inProp):
+			rep.Run++
 			rep.Fired++
-		} else {
+			rep.Names = append(rep.Names, c.Name)
+			quickSeen[c.Kind+":"+strings.Join(names, ",")] = true
+		case c.firedBy(fresh):
+			// fires, but only on constructs this property does not select: says nothing here
+		default:
+			rep.Run++
 			rep.Blind++
 			rep.BlindNames = append(rep.BlindNames, c.Name)
 		}
@@ -249,15 +267,17 @@ func debugControl(name string) int {
 			continue
 		}
 		var rules []string
-		all := &props.Prop{}
 		for _, e := range c.Expect {
-			all.Rules = append(all.Rules, e.Rule)
+			base := e.Rule
+			if i := strings.IndexAny(base, "(:/"); i > 0 {
+				base = base[:i]
+			}
+			rules = append(rules, base)
 		}
-		all.Rules = append(all.Rules, c.Rules...)
+		rules = append(rules, c.Rules...)
 		if *flagRule != "" {
-			all.Rules = strings.Split(*flagRule, ",")
+			rules = strings.Split(*flagRule, ",")
 		}
-		rules = c.rulesFor(all)
 		fresh, skip := runOneControl(c, rules, map[string]map[string]bool{})
 		if skip != "" {
 			fmt.Println("SKIPPED:", skip)
